@@ -250,7 +250,7 @@ theorem save_succeeds (P : Params V) (L : Layout) (hL : L.Pos) (d0 d : Doc V) (c
       have hi2 : Inv d0 ⟨commit P L d (prep d) w (w.refs.set (prep d).xid (.raw (w.len - (prep d).st2.start) 0)) rows, d.tr⟩ :=
         inv_of_commit P L hL d0 d _ chain0 hb hi w rows hw rfl rfl
       have hlook : ∀ j, chLookup (commit P L d (prep d) w (w.refs.set (prep d).xid (.raw (w.len - (prep d).st2.start) 0)) rows).changes j =
-          if j = (prep d).xid then some (P.xrefVal, 0) else chLookup (prep d).st2.changes j := by
+          if j = (prep d).xid then some (P.xrefVal (saveInfoOf (prep d) w (w.refs.set (prep d).xid (.raw (w.len - (prep d).st2.start) 0)) rows), 0) else chLookup (prep d).st2.changes j := by
         intro j; simp [commit, chLookup_chInsert]
       have hold : ∀ j : Nat, j < d.st.refs.length →
           chLookup (commit P L d (prep d) w (w.refs.set (prep d).xid (.raw (w.len - (prep d).st2.start) 0)) rows).changes j
@@ -289,7 +289,7 @@ theorem save_succeeds (P : Params V) (L : Layout) (hL : L.Pos) (d0 d : Doc V) (c
 /-- after a successful save the document is savable again (the cross-reference stream left pending is
     itself serialisable) -/
 theorem savable_after_save (P : Params V) (L : Layout) (hL : L.Pos) (d0 d d' : Doc V) (chain0) (i : SaveInfo)
-    (hb : BaseOK d0 chain0) (hi : Inv d0 d) (hx : P.ok P.xrefVal = true) (hs : Savable P d)
+    (hb : BaseOK d0 chain0) (hi : Inv d0 d) (hx : ∀ i, P.ok (P.xrefVal i) = true) (hs : Savable P d)
     (h : save P L d = (d', .ok i)) : Savable P d' := by
   have pf := prep_facts d0 d chain0 hb hi
   obtain ⟨w, rows, hw, hr, hst, hl, _, _, _, _, _⟩ := save_ok_spec P L d d' i h
@@ -303,7 +303,7 @@ theorem savable_after_save (P : Params V) (L : Layout) (hL : L.Pos) (d0 d d' : D
       obtain ⟨v, a, _, _, e, _⟩ := pf.info_some ii hir
       rw [e]; exact allOk_chInsert P _ _ _ _ hs.values_ok (hs.info_ok v a)
   refine ⟨?_, ?_, ?_, ?_⟩
-  · rw [hst]; exact allOk_chInsert P _ _ _ _ hall hx
+  · rw [hst]; exact allOk_chInsert P _ _ _ _ hall (hx _)
   · rw [htr]; exact hs.info_ok
   · intro j hj
     exfalso
